@@ -97,6 +97,18 @@ def run(tier, seed):
                     if rng.random() < 0.4:
                         t = '=' + t
                     rows[r][c] = t
+                if kind != 'innocent-only' and rng.random() < 0.5:
+                    # neighbours: a cell that OPENS an upper-case call and never closes it, right before / above / after a Python-like cell - every cell is judged
+                    # on its own text, whatever stands in the same row or column
+                    r, c = rng.randrange(h), rng.randrange(w - 1)
+                    opener = rng.choice(['NOTE(', 'ABC(', '="TOTAL("&A1', 'SUM(', 'X(1', 'IF(A1,"(', 'N(\n'])
+                    py = rng.choice(PYLIKE[:24])
+                    if rng.random() < 0.7:
+                        rows[r][c], rows[r][c + 1] = opener, py
+                    else:
+                        rows[r][c], rows[r][c + 1] = py, opener
+                    if h > 1:
+                        rows[(r + 1) % h][c] = rng.choice(PYLIKE[:24])
                 for r in range(h):
                     for c in range(w):
                         if rows[r][c] is None and rng.random() < 0.3:
